@@ -42,6 +42,33 @@ pub trait Family: 'static + Sized + Send + Sync {
     /// PUBLISH with topic "t", QoS 0, no properties and the given payload
     fn publish_with_payload(payload: Vec<u8>) -> Self::Packet;
     fn type_index(p: &Self::Packet) -> usize;
+    /// every separately encodable part reachable from the packet (body, will, property sets, protocol)
+    fn parts(p: &Self::Packet) -> Vec<Part>;
+    /// packets of every type that carries properties, each with `n` user properties whose
+    /// name and value share one allocation of `len` bytes (oversize constructions of C02)
+    fn oversize_props(n: usize, len: usize) -> Vec<Self::Packet>;
+}
+
+pub struct Part {
+    pub name: &'static str,
+    pub reported: usize,
+    pub bytes: Vec<u8>,
+    /// the same part written through a sink that accepts one byte per call
+    pub chunked: Result<Vec<u8>, String>,
+    pub result: Result<(), String>,
+}
+
+pub fn part<E: Encodable>(name: &'static str, e: &E) -> Part {
+    let mut bytes = Vec::new();
+    let result = e.encode(&mut bytes).map_err(|e| format!("{:?}", e));
+    let steps = [sio::WStep::Accept(1); 0];
+    let mut w = sio::ScriptedWriter::new(&steps, e.encode_len().saturating_add(bytes.len()));
+    w.one_byte = true;
+    let chunked = match e.encode(&mut w) {
+        Ok(()) => Ok(w.out),
+        Err(e) => Err(format!("{:?}", e)),
+    };
+    Part { name, reported: e.encode_len(), bytes, chunked, result }
 }
 
 pub struct V3;
@@ -124,6 +151,28 @@ impl Family for V3 {
     }
     fn type_index(p: &Self::Packet) -> usize {
         type_index_v3(p)
+    }
+    fn parts(p: &Self::Packet) -> Vec<Part> {
+        use v3::Packet as P;
+        let mut v = Vec::new();
+        match p {
+            P::Connect(c) => {
+                v.push(part("v3.Connect", c));
+                v.push(part("Protocol", &c.protocol));
+                if let Some(w) = &c.last_will {
+                    v.push(part("v3.LastWill", w));
+                }
+            }
+            P::Publish(x) => v.push(part("v3.Publish", x)),
+            P::Subscribe(x) => v.push(part("v3.Subscribe", x)),
+            P::Suback(x) => v.push(part("v3.Suback", x)),
+            P::Unsubscribe(x) => v.push(part("v3.Unsubscribe", x)),
+            _ => {}
+        }
+        v
+    }
+    fn oversize_props(_n: usize, _len: usize) -> Vec<Self::Packet> {
+        Vec::new()
     }
 }
 
@@ -223,6 +272,95 @@ impl Family for V5 {
     }
     fn type_index(p: &Self::Packet) -> usize {
         type_index_v5(p)
+    }
+    fn parts(p: &Self::Packet) -> Vec<Part> {
+        use v5::Packet as P;
+        let mut v = Vec::new();
+        match p {
+            P::Connect(c) => {
+                v.push(part("v5.Connect", c));
+                v.push(part("Protocol", &c.protocol));
+                v.push(part("ConnectProperties", &c.properties));
+                if let Some(w) = &c.last_will {
+                    v.push(part("v5.LastWill", w));
+                    v.push(part("WillProperties", &w.properties));
+                }
+            }
+            P::Connack(x) => {
+                v.push(part("v5.Connack", x));
+                v.push(part("ConnackProperties", &x.properties));
+            }
+            P::Publish(x) => {
+                v.push(part("v5.Publish", x));
+                v.push(part("PublishProperties", &x.properties));
+            }
+            P::Puback(x) => {
+                v.push(part("v5.Puback", x));
+                v.push(part("PubackProperties", &x.properties));
+            }
+            P::Pubrec(x) => {
+                v.push(part("v5.Pubrec", x));
+                v.push(part("PubrecProperties", &x.properties));
+            }
+            P::Pubrel(x) => {
+                v.push(part("v5.Pubrel", x));
+                v.push(part("PubrelProperties", &x.properties));
+            }
+            P::Pubcomp(x) => {
+                v.push(part("v5.Pubcomp", x));
+                v.push(part("PubcompProperties", &x.properties));
+            }
+            P::Subscribe(x) => {
+                v.push(part("v5.Subscribe", x));
+                v.push(part("SubscribeProperties", &x.properties));
+            }
+            P::Suback(x) => {
+                v.push(part("v5.Suback", x));
+                v.push(part("SubackProperties", &x.properties));
+            }
+            P::Unsubscribe(x) => {
+                v.push(part("v5.Unsubscribe", x));
+                v.push(part("UnsubscribeProperties", &x.properties));
+            }
+            P::Unsuback(x) => {
+                v.push(part("v5.Unsuback", x));
+                v.push(part("UnsubackProperties", &x.properties));
+            }
+            P::Disconnect(x) => {
+                v.push(part("v5.Disconnect", x));
+                v.push(part("DisconnectProperties", &x.properties));
+            }
+            P::Auth(x) => {
+                v.push(part("v5.Auth", x));
+                v.push(part("AuthProperties", &x.properties));
+            }
+            P::Pingreq | P::Pingresp => {}
+        }
+        v
+    }
+    fn oversize_props(n: usize, len: usize) -> Vec<Self::Packet> {
+        let s = std::sync::Arc::new("u".repeat(len));
+        let ups: Vec<v5::UserProperty> = (0..n).map(|_| v5::UserProperty { name: s.clone(), value: s.clone() }).collect();
+        let mut out = Vec::new();
+        for typ in 0..gen::V5_TYPES {
+            let mut t = Tape::new(&[]);
+            if let Ok(mut p) = gen::gen_v5_of_type(&mut t, &GenCfg::SMALL, typ) {
+                if let Some(u) = gen::user_props_mut(&mut p) {
+                    *u = ups.clone();
+                    out.push(p);
+                }
+            }
+        }
+        // and inside the will
+        let mut t = Tape::new(&[]);
+        if let Ok(mut c) = gen::gen_v5_connect(&mut t, &GenCfg::SMALL) {
+            let topic = std::convert::TryFrom::try_from("w".to_string()).expect("MQV-INTERNAL topic");
+            let mut w = v5::LastWill::new(mqtt_proto::QoS::Level0, topic, bytes::Bytes::new());
+            w.properties.user_properties = ups;
+            c.last_will = Some(w);
+            out.push(v5::Packet::Connect(c));
+        }
+        out
     }
 }
 
